@@ -223,7 +223,14 @@ func WithUpdateMTime(enabled bool) Option {
 }
 
 func fromURL(u *url.URL) (*fsCache, error) {
-	appname := u.Query().Get("appname")
+	// A malformed query (a ";" separator, a bad percent escape) must not be read as if the
+	// offending parameters were absent: "encrypt=on;encrypt_key=..." would open an
+	// unencrypted cache.
+	query, err := url.ParseQuery(u.RawQuery)
+	if err != nil {
+		return nil, fmt.Errorf("fscache: invalid DSN query: %w", err)
+	}
+	appname := query.Get("appname")
 	if appname == "" {
 		return nil, ErrMissingAppName
 	}
@@ -231,15 +238,15 @@ func fromURL(u *url.URL) (*fsCache, error) {
 	if u.Path != "" && u.Path != "/" {
 		opts = append(opts, WithBaseDir(u.Path))
 	}
-	if v := u.Query().Get("connect_timeout"); v != "" {
+	if v := query.Get("connect_timeout"); v != "" {
 		opts = append(opts, WithConnectTimeout(parseTimeout(v)))
 	}
-	if v := u.Query().Get("timeout"); v != "" {
+	if v := query.Get("timeout"); v != "" {
 		opts = append(opts, WithTimeout(parseTimeout(v)))
 	}
-	switch encrypt := u.Query().Get("encrypt"); encrypt {
+	switch encrypt := query.Get("encrypt"); encrypt {
 	case "on", "aesgcm":
-		key := cmp.Or(u.Query().Get("encrypt_key"), os.Getenv("FSCACHE_ENCRYPT_KEY"))
+		key := cmp.Or(query.Get("encrypt_key"), os.Getenv("FSCACHE_ENCRYPT_KEY"))
 		opts = append(opts, WithEncryption(key))
 	case "", "off":
 	default:
@@ -247,7 +254,7 @@ func fromURL(u *url.URL) (*fsCache, error) {
 		// must not silently leave the cache unencrypted.
 		return nil, fmt.Errorf("%w: %q", ErrUnknownEncryption, encrypt)
 	}
-	if updateMTime := u.Query().Get("update_mtime"); updateMTime == "on" {
+	if updateMTime := query.Get("update_mtime"); updateMTime == "on" {
 		opts = append(opts, WithUpdateMTime(true))
 	}
 	if cap(opts) > len(opts) {
